@@ -86,7 +86,8 @@ class C12(Prop):
             "generated to collide with A on atoms: the same strings, the same text under other modifiers, case "
             "variants, prefixes / suffixes, the same atom at another literal offset, an encoding of an A string as "
             "a plain string, xor ranges; strings of A and B may be `private` (1/5) or xor; rules of B may be "
-            "`private rule`s with strings (1/3); B in the same or another namespace, never global, never "
+            "`private rule`s with strings (1/3); B in the same or another namespace, never global in A's namespace (in its own namespace it may "
+            "hold a false global rule and private rules), never "
             "referenced; short strings whose whole literal is the atom (1-3 bytes) next to the same bytes preceded by NULs, "
             "in both orders; 1/4 of the string cases are scanned as 1-3 regions of a fragmented scan (fast / legacy / "
             "single-pass) with full matches requested, half of them with A decidable without its strings; A may "
@@ -203,6 +204,24 @@ class C12(Prop):
                 nsB = "nsB"
         allA = [d for r in A for d in r["decls"]]
         B = gen_rules("b", rng.range(1, 2), allA)
+        # rule references inside A: a later rule of A reads the result of an earlier one by name
+        plain_a = [r for r in A if not r.get("global")]
+        for i, r in enumerate(plain_a[1:], 1):
+            if rng.chance(1, 2):
+                ref = plain_a[rng.below(i)]["name"]
+                r["cond"] = rng.choice(["%s", "not %s", "%s and (#s0 >= 0)", "%s or false"]) % ref
+        if len(plain_a) == 1 and rng.chance(1, 3):
+            extra = {"name": "aref", "decls": [plain_decl(b"refstr")], "cond": rng.choice(["%s", "not %s"]) % plain_a[0]["name"],
+                     "private": False}
+            A = A + [extra]
+        # B in another namespace may hold a false global rule and private rules (its namespace is disabled)
+        has_ref = any(r["cond"].replace("not ", "").split(" ")[0] in [o["name"] for o in A] for r in A)
+        if nsB != nsA and rng.chance(2 if has_ref else 1, 3):
+            gbf = {"name": "gbf", "decls": [plain_decl(b"never-in-the-input-b")], "cond": "any of them", "private": False,
+                   "global": True}
+            B = [gbf] + B
+            for r in B[1:]:
+                r["private"] = rng.chance(1, 2)
         # interleaving: which positions of the merged sequence come from A
         n, k = len(A) + len(B), len(A)
         pos = sorted(rng.shuffle(list(range(n)))[:k])
@@ -224,9 +243,25 @@ class C12(Prop):
             m += rng.choice(pool)
             if rng.chance(1, 2):
                 m += rng.bytes(rng.range(0, 3), b" .aZ\x00")
-        case = {"A": A, "B": B, "nsA": nsA, "nsB": nsB, "order": order, "mem": bytes(m[:160]).hex(),
+        params = {}
+        if rng.chance(1, 4):
+            # a lowered match limit: strings sharing an atom, one of them over the limit early in the input
+            params["string_max_nb_matches"] = rng.choice([1, 2, 3])
+            rep = rng.choice(pool)
+            m = bytearray((rep + rng.choice([b"x ", b" ", b"9", b"."])) * rng.range(3, 8)) + m
+            if rng.chance(1, 2):
+                # the same text in A (fullword) and B (plain): B goes over the limit on occurrences followed by a
+                # letter, A's only match is a later, delimited occurrence of the shared atom
+                t = rng.bytes(rng.range(4, 7), b"abcdefgh")
+                da, db = plain_decl(t, fullword=True), plain_decl(t)
+                if rng.chance(1, 2):
+                    da, db = db, da
+                [r for r in A if not r.get("global")][0]["decls"][0] = da
+                [r for r in B if not r.get("global")][0]["decls"][0] = db
+                m = bytearray((t + b"x ") * rng.range(3, 7) + t + b" ") + m[:60]
+        case = {"A": A, "B": B, "nsA": nsA, "nsB": nsB, "order": order, "mem": bytes(m[:200]).hex(),
                 "include_not_matched": rng.chance(2, 3),
-                "profile": rng.choice(["speed", "memory"]), "params": {}}
+                "profile": rng.choice(["speed", "memory"]), "params": params}
         if rng.chance(1, 4):
             # the same input as 1-3 regions of a fragmented scan (fast / legacy / single-pass), full matches requested:
             # the pass that decides rules before the scan must not run; half of the time A is decidable without strings
@@ -290,6 +325,9 @@ class C12(Prop):
             ctx.count("family=%s" % ("fragmented-entrypoint" if c.get("frag") else "modules" if c.get("asset")
                                      else "strings-fragmented-%s" % c["mode"] if c.get("regions") is not None else "strings"))
             ctx.count("globals_in_A=%d" % sum(1 for r in c["A"] if r.get("global")))
+            ctx.count("globals_in_B=%d" % sum(1 for r in c["B"] if r.get("global")))
+            ctx.count("rule_refs_in_A=%d" % sum(1 for r in c["A"] if any(r["cond"].split(" ")[-1 if r["cond"].startswith("not ") else 0].strip("()") == o["name"] for o in c["A"])))
+            ctx.count("limit=%s" % c.get("params", {}).get("string_max_nb_matches", "default"))
             ctx.count("include_not_matched=%s" % bool(c.get("include_not_matched", True)))
         return [{"union": u, "A": a, "B": b} for u, a, b in zip(ou, oa, ob)]
 
